@@ -179,5 +179,64 @@ Definition c18_prop (k : fk_case) : bool :=
   let root := root_ref (k_mode k) (obs_trace k) in
   c18_follow (match k_mode k with LNone => true | _ => false end) (c_kept (k_cfg k)) (ri root) root (k_hist k) (k_qh k) (k_qi k)
              (mkFM [] 0 root false [] []) 0 [] (k_hist k) (k_obs k).
-Definition c18_verdict (k : fk_case) : N := combine k (c18_prop k).
+(* ---- W1 (conclusion audit): clauses of the property text that look_ok / c18_follow leave to the correspondence bit.
+   They are evaluated by a second walk with the same finality monitor, so that c18_prop (and the theorems about it) stay
+   as they are; the verdict demands both.
+   (w1) canonical lookup on the WHOLE retained part of the consumer's chain: every height of the chain at or above
+        LIB - kept (Spec.C18_Moving_Spec.canonical_clause (a)), not only at or above the LIB;
+   (w2) the bound from the first LIB move ON (Spec.window_clause: at every later observation point, not only on the moving
+        step) and through all three lookups: a block of the history under LIB - kept is not listed by AllIDs, not returned
+        by GetBlockByHash, not listed by AllBlocksAt;
+   (w3) head information = the last block delivered as New: its id, its NUMBER and its LIB number (HeadInfo), and HeadNum. *)
+Definition canon_at (qh : list N) (l : look) (n : N) : option N :=
+  match index_of n qh with Some i => nth_opt (l_canon l) i | None => None end.
+Definition byhash_at (qi : list N) (l : look) (id : N) : option bool :=
+  match index_of id qi with Some i => nth_opt (l_byhash l) i | None => None end.
+Definition allat_at (qh : list N) (l : look) (n : N) : option (list N) :=
+  match index_of n qh with Some i => match nth_opt (l_allat l) i with Some (Some ids) => Some ids | _ => None end | None => None end.
+
+Definition look_ok_w1 (kept : N) (U : list block) (qh qi : list N) (mon : fin_mon) (ever : bool) (l : look) : bool :=
+  let cut := rn (fm_last mon) - kept in
+  forallb (fun c => negb (cut <=? bnum c) ||
+                    match canon_at qh l (bnum c) with Some id => id =? bid c | None => false end) (fm_stack mon) &&
+  (negb ever ||
+   forallb (fun b => (cut <=? bnum b) ||
+                     (negb (memN (bid b) (l_ids l)) &&
+                      match byhash_at qi l (bid b) with Some v => negb v | None => true end &&
+                      match allat_at qh l (bnum b) with Some ids => negb (memN (bid b) ids) | None => true end)) U).
+
+Definition head_ok_w1 (U : list block) (lastnew : N) (o : obs) : bool :=
+  match lookup lastnew U with
+  | Some b => head_eqb (o_head o) (Some (bref b, blib b)) && (o_headnum o =? bnum b)
+  | None => true     (* nothing delivered as New yet (or a block outside the history): left to c18_follow *)
+  end.
+
+Fixpoint c18_follow_w1 (disc : bool) (kept : N) (lib : N) (root : ref) (U : list block) (qh qi : list N)
+         (mon : fin_mon) (lastnew : N) (ever : bool) (h : list block) (os : list obs) : bool :=
+  match h, os with
+  | b :: h', o :: os' =>
+      match fin_events lib root b mon (o_events o) with
+      | None => false
+      | Some mon' =>
+          let moved := existsb (fun e => match estep e with SIrr => true | _ => false end) (o_events o)
+                       && negb (ref_eqb (fm_last mon) (fm_last mon'))
+                       && negb (disc && negb (fm_any mon)) in
+          let ever' := ever || moved in
+          let lastnew' := last_new lastnew (o_events o) in
+          (negb (result_eqb (o_result o) ROk) || head_ok_w1 U lastnew' o) &&
+          (match o_look o with
+           | Some l => negb (result_eqb (o_result o) ROk) || look_ok_w1 kept U qh qi mon' ever' l
+           | None => true end) &&
+          c18_follow_w1 disc kept lib root U qh qi mon' lastnew' ever' h' os'
+      end
+  | _, _ => true
+  end.
+
+Definition c18_prop_w1 (k : fk_case) : bool :=
+  negb (c18_in_scope k) ||
+  let root := root_ref (k_mode k) (obs_trace k) in
+  c18_follow_w1 (match k_mode k with LNone => true | _ => false end) (c_kept (k_cfg k)) (ri root) root (k_hist k) (k_qh k) (k_qi k)
+                (mkFM [] 0 root false [] []) 0 false (k_hist k) (k_obs k).
+
+Definition c18_verdict (k : fk_case) : N := combine k (c18_prop k && c18_prop_w1 k).
 Definition c18_verdicts (l : list fk_case) := nonzero (map c18_verdict l).
